@@ -18,5 +18,7 @@ def run(ck):
     widths.scaling_guard(ck, "C19.R3")
     routes.carrier_types(ck, "C19.R4")
     carriers.threshold_everywhere(ck, "C18.R1")
+    from . import flags, pipeline
+    pipeline.overflow_dispatch(ck, "C02.R6", "C03.R2", flags.handler_roles_quiet(ck.prog))   # what leaves the kernels is clamped element by element on Python numbers
     res = funcs.kernel_typing(ck, "C07.R3", only=("add", "sub", "mul"))
     funcs.single_quantization(ck, "C08.R2", res)
